@@ -444,7 +444,8 @@ BAD_HEADERS = ["", "\n-- migration: {v}", "-- Migration: {v}", "-- migration {v}
                "-- migration: {v}٥", "-- migration: \U0001d7d8{v}", "-- migrations: {v}"]
 
 
-def gen_dir(rng: random.Random, wild: bool, prefix: str = "") -> list[tuple[str, str]]:
+def gen_dir(rng: random.Random, wild: bool, prefix: str = "", intended: dict | None = None) -> list[tuple[str, str]]:
+    """`intended` (regular directories only) receives name -> the version its conventional header declares"""
     n = rng.randint(1, 5)
     v = 1 if rng.random() < 0.8 else rng.randint(2, 9)
     versions = []
@@ -485,6 +486,8 @@ def gen_dir(rng: random.Random, wild: bool, prefix: str = "") -> list[tuple[str,
         if any(name == f[0] for f in files):
             name = f"{k}{name}"
         files.append((name, text))
+        if intended is not None and not wild:
+            intended[name] = hv
     if rng.random() < (0.5 if wild else 0.2):
         extra = rng.choice([("README.md", "notes"), ("0002_x.sql.bak", "-- migration: 2\nCREATE TABLE bak (a TEXT);"),
                             ("notes.sql.txt", "-- migration: 3\nDROP TABLE t1;"), (".sql", "-- migration: 77\nCREATE TABLE dot (a TEXT);\n"),
@@ -513,13 +516,17 @@ def gen_starts(rng: random.Random, nfiles: int, maxv: int, n: int, with_fault: b
 
 
 def gen_family(rng: random.Random, wild: bool, nstarts: int) -> dict:
-    main = gen_dir(rng, wild)
+    intended: dict = {}
+    main = gen_dir(rng, wild, intended=intended)
     pkg = SERVER if rng.random() < (0.85 if wild else 1.0) else rng.choice(["Server", "srv", "dbos"])
     sources = [[pkg, main]]
     if rng.random() < 0.25:
         sources.append([rng.choice(["dbos", "dbos", "extra", SERVER if wild else "dbos"]), gen_dir(rng, wild, prefix="j_")])
     nsql = sum(1 for f in main if f[0].endswith(".sql"))
-    return {"kind": "synthetic", "wild": wild, "sources": sources, "starts": gen_starts(rng, nsql, 12, nstarts, True)}
+    fam = {"kind": "synthetic", "wild": wild, "sources": sources, "starts": gen_starts(rng, nsql, 12, nstarts, True)}
+    if not wild:
+        fam["intended"] = intended
+    return fam
 
 
 def shipped_family() -> dict:
@@ -638,6 +645,16 @@ def run_family(ctx: Ctx, fam: dict) -> None:
     if shipped:
         ctx.op("shipped", " ".join(f"{n}:{v}:<{';'.join(show_stmt(s) for s in parse_sql(t))}>" for n, t, v in order0),
                {"family": fam, "what": "generated table vs current files"})
+
+    # --- regular generated directories: every header follows the documented `-- migration: N` convention and the
+    # generator knows N; the loader must read exactly that (else "every version recorded" is about the wrong numbers)
+    if fam.get("intended"):
+        got = {n: v for n, _t, v in order0}
+        bad = [(n, v, got.get(n)) for n, v in sorted(fam["intended"].items()) if got.get(n) != v]
+        if bad:
+            out.violations.append(Violation("C28/declared_version_misread",
+                                            f"(file, declared, read by the loader) = {bad[:3]}",
+                                            {"family": dict(fam, starts=fam["starts"][:1]), "start": fam["starts"][0]}))
 
     # --- is the list one the property speaks about?  decided by the real loader and real SQLite only
     wellformed = all(p == SERVER or i > 0 for i, (p, _f) in enumerate(src_specs)) and main_pkg == SERVER
@@ -897,12 +914,12 @@ def run(env: Env) -> Outcome:
         fams.append(shipped_family())
         fams += corpus_families()
         rng = random.Random(env.rng.randrange(1 << 30))
-        n = min(env.budget(80, 1500), 4000)  # (deep mode multiplies by 10: keep the widened search inside the time limit)
+        n = min(env.budget(50, 1500), 4000)  # (deep mode multiplies by 10: keep the widened search inside the time limit)
         for i in range(n):
             fams.append(gen_family(rng, wild=(i % 2 == 1), nstarts=3 if env.tier == "quick" else 4))
         # header parser on its own: random first lines
         ctx.op("classes", unicode_tables(), {"what": "unicode tables used by the header regex"})
-        for _ in range(min(env.budget(1500, 20000), 60000)):
+        for _ in range(min(env.budget(1000, 20000), 60000)):
             t = gen_header_text(rng)
             pv = ctx.utils.parse_target_version(t)
             ctx.op("parse " + enc(t), "none" if pv is None else f"some {pv}", {"what": "parse", "text": t})
